@@ -3,12 +3,17 @@ package main
 // C04: site extraction and coordinates.
 
 import (
+	"bytes"
 	"fmt"
-	"github.com/evolbioinfo/goalign/io/partition"
 	"math/rand"
+	"os"
+	"os/exec"
+	"path/filepath"
 	"strings"
 
 	"github.com/evolbioinfo/goalign/align"
+	"github.com/evolbioinfo/goalign/io/fasta"
+	"github.com/evolbioinfo/goalign/io/partition"
 )
 
 func init() { register("c04", c04) }
@@ -200,6 +205,33 @@ func c04(args []string) error {
 				res.ints = []int{0, 0}
 			}
 			add(alpha, names, seqs, "RefCoordinates", fmt.Sprintf("OpRefCoord %s %s %s", coqStr(name), coqZ(s), coqZ(l)), res, meta)
+			// the same request through the command line: goalign subseq --ref-seq
+			if bin := os.Getenv("VERIF_GOALIGN_BIN"); bin != "" && len(names) > 0 && r.Intn(3) == 0 {
+				tmpd, e := os.MkdirTemp("", "c04cli")
+				if e == nil {
+					inf := filepath.Join(tmpd, "in.fa")
+					var sb strings.Builder
+					for k := range names {
+						fmt.Fprintf(&sb, ">%s\n%s\n", names[k], seqs[k])
+					}
+					os.WriteFile(inf, []byte(sb.String()), 0644)
+					cres := result{outN: []string{}, outS: []string{}, ints: []int{}}
+					cmd := exec.Command(bin, "subseq", "-i", inf, fmt.Sprintf("--start=%d", s), fmt.Sprintf("--length=%d", l), "--ref-seq", name)
+					var stdout bytes.Buffer
+					cmd.Stdout = &stdout
+					runErr := cmd.Run()
+					cres.class = OutOk
+					if runErr != nil {
+						cres.class = OutErr
+					} else if al, pe := fasta.NewParser(bytes.NewReader(stdout.Bytes())).Parse(); pe == nil {
+						cres.outN, cres.outS = alignContent(al)
+					} else {
+						cres.class = "BadOutput"
+					}
+					os.RemoveAll(tmpd)
+					add(alpha, names, seqs, "cli:subseq --ref-seq", fmt.Sprintf("OpSubseqRef %s %s %s", coqStr(name), coqZ(s), coqZ(l)), cres, map[string]interface{}{"cli": true})
+				}
+			}
 		case 6: // RefSites
 			name := "nosuch"
 			ung := 0
